@@ -14,7 +14,7 @@ func init() {
 
 func runC02(p *Prog, r *Report) {
 	queuePops(p, r, "C02.12/queue-pops", func(rel string) bool { return rel == "protocol/xpush" || strings.HasPrefix(rel, "transport") })
-	r.Floor("C02.12/queue-pops", "queue_pop_sites", 5)
+	r.Floor("C02.12/queue-pops", "queue_pop_sites", 2)
 	crossCutting(p, r, "C02.X", "internal/core", "protocol/xpair", "protocol/xpair1", "protocol/xpush", "protocol/xpull")
 	lockBalance(p, r, "C02.7/E1", "internal/core", "protocol/xpair", "protocol/xpair1", "protocol/xpush", "protocol/xpull")
 	q := NewQ(p, r)
